@@ -240,8 +240,8 @@ def exec (s : State) (t : Nat) : MStep → State
   * a handle that is in the middle of `operator=(T*)` (stale) is not used by anything
     but the `ptr = input` of that assignment;
   * `ptr = input` does not overwrite a handle that still owns a count;
-  * a raw pointer is only used for an object on which a counted reference is held
-    (`refsTo s k > 0`, see `Props`): here approximated executably by `RawOK`;
+  * a raw pointer is only used for an object on which a counted reference exists
+    (`0 < refsTo s k`: an owning handle, a local of a running operation or a raw reference);
   * `refDec()` through a raw pointer gives back a reference held through a raw pointer;
   * the allocator returns a non-null address not used by a live object. -/
 
